@@ -16,7 +16,7 @@ CLAIMS = {
         "cancellation points (refinement proof execute_refines + evalE_sound). Tie: model validated against the real engine on "
         "generated scenarios (trace, facts, poll counts, memo flags, snapshots, index maps); oracle: real engine vs from-scratch semantics.",
         note="Side conditions of the theorem (structure Side): user methods referentially transparent, state-changing built-ins only as "
-        "statements, snapshot injectivity (SnapInj), FrameHyp (an assignment leaves the memo coherent).",
+        "statements, injective float formatting (FloatPF; snapshot injectivity SnapInj is proved from it), FrameHyp (an assignment leaves the memo coherent).",
         tech="Lean 4 refinement proof (memo transparency) + differential correspondence", ref="5.C01"),
  "C02": dict(text="Lean theorems C02_quiescent and C02_pass_complete: when the engine model returns nil without Complete no active rule holds "
         "on the final facts; a pass that is not cut short reports exactly the satisfied active rules as candidates. Same tie and oracle as C01.",
@@ -45,7 +45,7 @@ CLAIMS = {
  "C11": dict(text="Lean theorem C11_exact: FetchMatchingRules (model with working memory) returns exactly the non-removed entries whose condition holds "
         "from scratch, sorted by non-increasing salience (sortStable_sorted), as a permutation of the matching entries (sortStable_perm), facts untouched; "
         "no FrameHyp needed (no writes). C11_error_mode. Real engine vs model vs reference on generated rule sets incl. removed rules, equal saliences, failing conditions.",
-        note="MethodsPure, SnapInj, wfRule, unique keys.", tech="Lean 4 refinement proof for fetch + sort lemmas + correspondence", ref="5.C11"),
+        note="MethodsPure, FloatPF (gives the proved SnapInj), wfRule, unique keys.", tech="Lean 4 refinement proof for fetch + sort lemmas + correspondence", ref="5.C11"),
  "C13": dict(text="Lean theorems C13_hit_skips_* (a remembered node is not evaluated again: no call, state untouched), C13_remembered, "
         "C13_cleared_only_when_indexed, C13_index_only_infix (the index lists a node under a variable only if the variable's snapshot occurs in the node's). "
         "Tie/oracle: the sequence of real user-method calls (name, arguments) of every run must equal the model's; an extra real call is reported as a C13 violation.",
@@ -69,10 +69,10 @@ CLAIMS = {
         "and Go); unsigned operands >= 2^63 against signed ones are outside the property's int64 window. Fix 3c0c121 in /repo (time compared by instant).",
         tech="Lean 4 theorems over regenerated operator tables (decide tie) + real-function grid validation", ref="5.C19"),
  "C07": dict(text="Lean theorems C07_status_alone (in any joint knowledge base, any order, a pass reports a rule as candidate iff its own condition holds), "
-        "C07_meaning_is_local, C07_sharing_unobservable (the run with snapshot-keyed sharing is the reference run). Snapshot printers are mirrored exactly "
+        "C07_meaning_is_local, C07_sharing_unobservable (the run with snapshot-keyed sharing is the reference run), C07_snapshots_determine_nodes (equal snapshots only for equal nodes, all ASTs). Snapshot printers are mirrored exactly "
         "(strconv.QuoteToASCII, shortest float formatting implemented in integer arithmetic) and compared string-by-string with the real ones, as are the "
         "working-memory key sets; oracle: every sibling rule behaves together exactly as alone on the real engine.",
-        note="SnapInj (snapshots determine nodes) is a named hypothesis of the refinement theorem (proof in progress: Proofs/SnapInj.lean); fixes 162f0cf (float "
+        note="SnapInj (snapshots determine nodes) is proved (C07_snapshots_determine_nodes: the printers write a prefix code) from FloatPF, injectivity of shortest float formatting, for ASTs without NaN constants; fixes 162f0cf (float "
         "constants) and 9d8d3f3 (string constants) in /repo removed the two known collisions.", tech="Lean 4 corollaries of the refinement theorem + exact snapshot correspondence + alone-vs-together oracle", ref="5.C07"),
  "C16": dict(text="Lean theorems over the library model: C16_build_preserves (unique keys, key = RuleName and every existing entry unchanged by any accepted or "
         "rejected resource), C16_remove (the name is free, the entry tomb-stoned, others untouched; both tomb-stone namings), C16_remove_inv, C16_name_reusable, "
